@@ -450,7 +450,15 @@ func c15AddrText(r c15R, a netip.Addr) string {
 	if a.Is4() {
 		return a.String()
 	}
-	switch r.IntN(4) {
+	switch r.IntN(5) {
+	case 4:
+		// mixed notation (RFC 4291 2.2.3): the last 32 bits as a dotted quad; valid for any IPv6 address
+		b := a.As16()
+		parts := make([]string, 6)
+		for i := 0; i < 6; i++ {
+			parts[i] = strconv.FormatUint(uint64(b[2*i])<<8|uint64(b[2*i+1]), 16)
+		}
+		return strings.Join(parts, ":") + fmt.Sprintf(":%d.%d.%d.%d", b[12], b[13], b[14], b[15])
 	case 0:
 		return a.StringExpanded()
 	case 1:
